@@ -36,4 +36,12 @@ func init() {
 		Assumptions: commonAssumptions,
 		Rules:       []string{"C16/prelude", "C16/readerr", "C16/sticky", "C16/let-on-success", "C16/output", "C16/exit"},
 	}, ruleC16)
+	register(PropertyMeta{
+		ID:          "C14",
+		Level:       "proof",
+		Explanation: "Effect analysis over the go/ssa form of every function of packages pql and parser (a superset of what the public entry points reach). Obligations, each discharged mechanically: (write-local) every Store, MapUpdate, append/copy/delete and every mutating standard-library call targets memory whose provenance class - computed by an interprocedural fixpoint over allocation sites, parameters (joined over all call sites; parameters of exported or escaping functions are caller-owned), globals, loaded contents and call results - is call-local only; (globals) no write to package-level state outside package initialisation except inside the closure passed to the sync.Once.Do of the same variable, and every access to such a variable's fields is dominated by that Do call; (concurrency/ambient) no go statement, channel operation, or call/import of time, rand, os, runtime, unsafe, reflect, net; (map-order) every range over a map only copies into a call-local map; sorted key lists are obtained through the reviewed effect table; (nil-opts) every dereference of the options receiver is dominated by `opts != nil`; (format) every fmt call has a constant format without %p and no bare pointer operand under %v; (call) every callee outside the module is in the reviewed effect table. Together: no shared mutable state, no ambient input, so equal inputs give equal outputs under any interleaving.",
+		Assumptions: []string{"go/ssa and go/types model the source faithfully", "the standard-library functions in the reviewed effect table (strings, strconv, fmt, errors, unicode, utf8, slices.Sort/Clone, x/exp/maps.Keys, sync.Once) behave as documented and are themselves race-free", "no unsafe/reflect/cgo in the two library packages (asserted from their import sets)"},
+		TrustedBase: []string{"go/packages + go/types + go/ssa (x/tools v0.29.0)", "reviewed effect table of standard-library callees in checker/internal/pc/rules_c14.go (mutatedArgs, freshResult)", "Go memory model: data-race freedom follows from absence of shared writable memory"},
+		Rules:       []string{"C14/write-local", "C14/globals", "C14/call", "C14/concurrency", "C14/ambient", "C14/map-order", "C14/nil-opts", "C14/format"},
+	}, ruleC14)
 }
